@@ -142,14 +142,11 @@ class MDOParallelChain(ProcessDiscipline):
         self._set_disciplines_diff_inputs(input_names)
         jacobians = self.parallel_lin.execute(self._get_input_data_copies())
         self.jac = {}
-        # Update jacobians according to input order of priority
+        # Update jacobians according to input order of priority:
+        # as in _execute, the last discipline computing an output defines it.
         for discipline_jacobian in jacobians:
             for output_name, output_jacobian in discipline_jacobian.items():
-                chain_jacobian = self.jac.get(output_name)
-                if chain_jacobian is None:
-                    chain_jacobian = {}
-                    self.jac[output_name] = chain_jacobian
-                chain_jacobian.update(output_jacobian)
+                self.jac[output_name] = dict(output_jacobian)
 
         self._init_jacobian(
             input_names,
